@@ -105,6 +105,7 @@ namespace vops
 namespace sim
 {
     const char* const harness_name = "variant";
+    const bool caller_threads_enabled = true;
 #define X(n) #n,
     const char* const op_names[] = {VARIANT_OPS(X)};
 #undef X
@@ -807,7 +808,7 @@ namespace
         void run_all()
         {
             check_all();
-            for (const Step& st : plan.steps) step(st);
+            for (const Step& st : plan.steps) as_caller(run, st, [&] { step(st); });
             tail = "teardown/-";
             teardown();
             lifetimes();
@@ -1183,7 +1184,7 @@ namespace
         void run_all()
         {
             check_all();
-            for (const Step& st : plan.steps) step(st);
+            for (const Step& st : plan.steps) as_caller(run, st, [&] { step(st); });
             tail = "teardown/-";
             teardown();
             lifetimes();
